@@ -100,6 +100,22 @@ def main():
                 futs = [ex.submit(extract_ce, pid, spec, mdir, gmap[row["group"]], h, row, tier_cfgs) for h, row in to_replay]
                 recs = [f.result() for f in futs]
         native_stage(pid, mdir, recs, gmap, tier_cfgs, skip_native=a.no_replay)
+        # second attempt for CPU harnesses: a counterexample whose addresses the replay image cannot realise
+        # (I/O, echo RAM) is re-extracted under the extra assumption that every bus address is backed by memory
+        if spec.get("realizable_retry") and not a.no_replay:
+            retry = [r for r in recs if not r["reproduced"] and r["mode"] == "playback"]
+            if retry:
+                log(f"[{pid}] {len(retry)} counterexample(s) not realisable natively: second extraction with --cfg verif_realizable")
+                rmap = {(h, tuple(row["new_keys"])): (h, row) for h, row in to_replay}
+                cfg2 = list(tier_cfgs) + ["verif_realizable"]
+                with ThreadPoolExecutor(max_workers=3) as ex:
+                    futs = [ex.submit(extract_ce, pid, spec, mdir, gmap[r["group_name"]], r["harness"], {"new_keys": r["keys"]}, cfg2) for r in retry]
+                    recs2 = [f.result() for f in futs]
+                native_stage(pid, mdir, recs2, gmap, cfg2, skip_native=False)
+                for old, new in zip(retry, recs2):
+                    if new["reproduced"]:
+                        new["first_attempt"] = {"why": old.get("why"), "native": old.get("native")}
+                        recs[recs.index(old)] = new
         for rec in recs:
             finish_replay_record(pid, rec)
             replay_records.append(rec)
@@ -326,6 +342,9 @@ def write_evidence(pid, spec, tier, seed, t0, results, rows, violations, known_h
         if r["verdict"] in ("pass", "known", "fail"):
             for t in r.get("tags_ok", []):
                 tags.add((short(h), t))
+            if not r.get("tags_ok") and r["verdict"] == "pass":
+                # harness whose obligation is Kani's own checks (no panic / bounds / overflow): one obligation
+                tags.add((short(h), "no-panic/no-overflow/in-bounds"))
     n_checks = sum(r["n_checks"] for r in rows.values())
     solver_s = sum(float(r["stats"].get("runtime_decision_procedure_s", 0) or 0) for r in rows.values())
     symex_s = sum(float(r["stats"].get("runtime_symex_s", 0) or 0) for r in rows.values())
